@@ -142,7 +142,11 @@ func (s *Session) RemoveTopic(new []byte) {
 func (s *Session) GetTopics() [][]byte {
 	s.mtx.Lock()
 	defer s.mtx.Unlock()
-	return s.topics
+	// a copy: the caller walks the list after the lock is released, while RemoveTopic
+	// rewrites the elements of the live one in place
+	out := make([][]byte, len(s.topics))
+	copy(out, s.topics)
+	return out
 }
 func (s *Session) ExtendDeadline() {
 	s.conn.SetDeadline(time.Now().Add(2 * time.Duration(s.keepaliveInterval) * time.Second))
